@@ -22,11 +22,12 @@ pub const F_STRINGS: usize = 13;
 pub const F_RESET: usize = 14;
 pub const F_GARBAGE: usize = 15;
 pub const F_PARTIAL: usize = 16;
-pub const NFAM: usize = 17;
+pub const F_COMBO: usize = 17;
+pub const NFAM: usize = 18;
 
 pub const FAM_NAMES: [&str; NFAM] = [
     "text", "c0", "cursor_rel", "cursor_abs", "scroll", "edit", "sgr", "modes", "margins", "tabs", "charsets", "save_restore", "alt_screen", "strings_unknown",
-    "reset", "garbage", "partial",
+    "reset", "garbage", "partial", "combo",
 ];
 
 #[derive(Clone, Debug)]
@@ -103,6 +104,7 @@ impl Profile {
         let mut p = Self::base();
         p.fam[F_GARBAGE] = 6;
         p.fam[F_PARTIAL] = 4;
+        p.fam[F_COMBO] = 5;
         p.fam[F_STRINGS] = 4;
         p.damage_pm = 40;
         p.wild_text = true;
@@ -413,6 +415,31 @@ fn garbage(r: &mut Rng, p: &Profile) -> String {
     }
 }
 
+/// Composite scenario tokens: short multi-step histories whose parts are individually rare to line
+/// up (park a saved cursor far away on one screen, come back after the geometry changed, ...).
+fn combo(r: &mut Rng, cols: usize, rows: usize, p: &Profile) -> String {
+    let intro = csi(r, p);
+    let alt = *r.pick(&["47", "1047", "1049"]);
+    let alt2 = *r.pick(&["47", "1047", "1049"]);
+    let save = *r.pick(&["\x1b7", "\x1b[s", "\x1b[?1048h"]);
+    let restore = *r.pick(&["\x1b8", "\x1b[u", "\x1b[?1048l"]);
+    let far = *r.pick(&["\x1b[999;999H", "\x1b[999;1H", "\x1b[1;999H", "\x1b[999;999Hx"]);
+    match r.below(12) {
+        0 => format!("{}?{}h{}{}{}?{}l", intro, alt, far, save, intro, alt2),
+        1 => format!("{}?{}h{}X", intro, alt, restore),
+        2 => format!("{}{}", far, save),
+        3 => format!("{}XY", restore),
+        4 => format!("{}?6h{}{}{};{}r{}", intro, save, intro, 2 + r.usize_below(rows.max(1)), rows, restore),
+        5 => format!("{}{};{}r{}?6h{}", intro, 1 + r.usize_below(rows), rows + 1 - r.usize_below(2), intro, far),
+        6 => format!("{}?{}h{}{}\x1b[!p{}?{}l", intro, alt, far, save, intro, alt2),
+        7 => format!("{}{}{}?7l{}", far, "x".repeat(cols.min(40)), intro, "yz"),
+        8 => format!("{}1;{}r{}{}", intro, rows.saturating_sub(1).max(1), far, "\n".repeat(1 + r.usize_below(3))),
+        9 => format!("{}?{}h{}?{}h{}", intro, alt, intro, alt2, restore),
+        10 => format!("{}{}{}{}", "\x1b[?6h", far, save, "\x1b[?6l"),
+        _ => format!("{}{}{}", save, "\x1bc", restore),
+    }
+}
+
 const PARTIALS: [&str; 24] = [
     "\x1b", "\x1b[", "\x1b[3", "\x1b[3;", "\x1b[?", "\x1b[?6", "\x1b[38:2:1", "\x1b(", "\x1b#", "\x1b]", "\x1bP", "\x1bP1", "\x1bP$", "\x1bPq", "\x1bX", "\x1b[ ", "\x1b[1 ",
     "\x1b[:", "\x1bP:", "\u{9b}", "\u{9b}1;2", "\u{90}", "\u{9d}ti", "\x1b[1;2;3;4;5;6;7;8;9;10;11;12;13;14;15;16;17;18;19;20;21;22;23;24;25;26;27;28;29;30;31;32;33;34",
@@ -510,6 +537,7 @@ pub fn gen_token_of(r: &mut Rng, fam: usize, cols: usize, rows: usize, p: &Profi
         }
         F_GARBAGE => garbage(r, p),
         F_PARTIAL => (*r.pick(&PARTIALS)).into(),
+        F_COMBO => combo(r, cols, rows, p),
         _ => String::new(),
     }
 }
